@@ -558,17 +558,20 @@ EXTRA_TEXT4 = {
     'C02': 'Whether a client was given is decided by identity with None, '
            'never by its truth value; the stack is searched from the push '
            'end also when the search loop lives in a helper that is handed '
-           'the stack.',
+           'the stack.'
+           '`_.namespace()` hands its keywords on as keywords; the attribute wrapper caches found values only; the sub-template test is subclass-tolerant once the package has a namespace subclass.',
     'C03': 'The var branch is judged also when it is a helper with early '
            'returns and a for/else character test.',
     'C04': 'No table function is re-bound at module level to a wrapper.',
     'C05': 'The guard-or-fallback idiom is recognised in its early-return '
            'form; InstanceDict takes its guard from the namespace '
-           '(structural).',
+           '(structural).'
+           'A guard copied into a new namespace is read as an attribute (instance or class level).',
     'C06': 'Every section the parser collected for a block tag is compiled '
            'or rejected on every normally returning path of its '
            'constructor; a pattern built from template text is never '
-           'applied while compiling.',
+           'applied while compiling.'
+           'The attribute parsers apply their patterns with match() at the cursor only.',
     'C07': 'Tags that name their operand twice (unnamed + name=, unnamed + '
            'expr=, name= + expr=) or not at all reach no return of '
            'name_param (scenario evaluation).',
@@ -576,22 +579,28 @@ EXTRA_TEXT4 = {
            'site.',
     'C10': 'The mapping option alone decides between subscription and '
            'attribute access; each switch of dtml-in is copied under its '
-           'own presence only.',
+           'own presence only.'
+           'No exit from a renderer before the emptiness probe; data[\'mapping\'] is set from the option in both renderers.',
     'C12': 'sequence_ensure_subscription returns the object itself or the '
-           'lazy wrapper, nothing materialised.',
+           'lazy wrapper, nothing materialised.'
+           'The wrapper\'s buffer is read by the element reader only; an object recognised as the wrapper is never materialised.',
     'C13': 'No extracted sort key is handed on while it may be None; cmp() '
-           'is three-way (scenario evaluation).',
+           'is three-way (scenario evaluation).'
+           'A \'nocase\' sort name selects a case-folding function (if-chain or table).',
     'C14': 'The value of dtml-return does not pass through and/or; handler '
            'entries are appended in source order inside the walk over the '
-           'clauses.',
+           'clauses.'
+           'No try/except of the dtml-in renderers renders a section in its body; class names are matched by equality; exception names come from split() without an argument.',
     'C15': 'size= truncates only texts longer than size (three scenarios); '
            'the null= test is not an arm of the fmt= statement; a find() '
-           'result is not compared with 0 in table functions.',
+           'result is not compared with 0 in table functions.'
+           'The urllib functions behind the url modifiers are called with the value alone.',
     'C16': 'count-<name> is stored on every path after the preset.',
     'C17': 'First-use memos on the template object are reset by cook / '
            'munge; no function writes module-level containers; munge takes '
            'over an empty source and hands mapping / keywords to initvars '
-           'as given.',
+           'as given.'
+           'A value-keyed memo is typed; no non-volatile attribute is removed from the pickled state under a condition.',
     'C18': 'No render-time callable of a compiled object returns a possibly '
            'mutable object built while compiling.',
     'C19': 'The codec of a decode is never chosen by looking at the bytes; '
